@@ -44,6 +44,7 @@ type fakePeer struct {
 	version int
 	recv    []wireObs
 	rbuf    []byte
+	outBytes []byte // every byte sent on the current outbound stream (framing model for C12)
 	badWire int
 	seqno   uint64
 
@@ -142,6 +143,7 @@ func (fp *fakePeer) openStream(proto protocol.ID) bool {
 	}
 	local, remote := s.newStreamPair(fp.conn, proto)
 	fp.out = local
+	fp.outBytes = nil
 	s.logf("FAKE %s opens stream %s proto=%s", fp.name, local.name, proto)
 	go hd(remote)
 	return true
@@ -172,6 +174,7 @@ func (fp *fakePeer) sendRaw(b []byte) bool {
 		return false
 	}
 	fp.s.logf("FAKE %s sends %d bytes %x", fp.name, len(b), shortHash(b))
+	fp.outBytes = append(fp.outBytes, b...)
 	np.rd.deliver(b)
 	return true
 }
